@@ -18,16 +18,23 @@
 //                   with rows < n (filled_ok); on Ok column c holds exactly cnt(c, n) entries (filled_cnt: marking is sound AND complete);
 //                   with the exact counts of _etree every column is then full and L satisfies l_wf and l_strict (l_complete) -- what the triangular
 //                   solves of unit qdldl_kernels require for their unchecked accesses, with no assumption on L's previous contents;
+//                 * NUMERIC run returning Ok(count) (opaque floats, pure data flow): every pivot passed the zero test and Dinv[k] == f_recip(D[k])
+//                   (pivots_ok); count == number of k with D[k] > 0 (pos_cnt); there is `pre` (the pivots before the regularisation step, kept as a
+//                   ghost history in the column loop) with D[k] == delta*sign_k if regularize_enable && pre[k]*sign_k < eps, else D[k] == pre[k],
+//                   sign_k = from_i8(Dsigns[k]), and *regularize_count == number of perturbed k (reg_ok / reg_cnt); D[j], j < k, is not touched by column k;
+//                   LOGICAL run: always Ok(0), regularize_count 0, Lx / Dinv untouched;
 //                 * frame: a row index of L is a fresh row < n or unchanged (so l_wf holds also after Err if it held before, l_wf_if_rows_ok);
 //                   a logical factorisation leaves Lx and Dinv alone; n == 0 changes nothing.
 //  QDLDLWorkspace::new   allocates iwork 3n / bwork n / fwork n, runs _etree on triuA's own pattern; the result satisfies ws_ok (never Err).
 //  _factor        hands triuA / Lnz / etree / the work arrays of the workspace unchanged to _factor_inner (its precondition is discharged from ws_ok);
 //                 keeps ws_ok and everything static in the workspace (fit for the next refactor); Ok only if _factor_inner returned Ok, then L is l_complete.
-// NOT PROVED here: anything numeric (L D L' = A, inertia = number of positive pivots, the regularisation rule): floats are uninterpreted symbols.
+//                 exposes the numeric facts above for !logical (positive_inertia = pos_cnt, regularize_count = reg_cnt) and, for logical, Ok with
+//                 L.nzval / Dinv all f_one() and both counters 0 -- so a caller's contract can tell the two modes apart.
+// NOT PROVED here: L D L' = A (the VALUES of the pivots `pre` and of Lx): floats are uninterpreted symbols.
 //
 // ASSUMED (hand written, trusted):
 //  prelude/float_opaque.rs (F = the crate's T; every operation an uninterpreted symbol), prelude/std_assumed.rs (<[T]>::fill);
-//  F::from_i8 returns Some (num_traits FromPrimitive on a float never fails)                                  -- external_body, below;
+//  F::from_i8(a) returns Some(f_from_i8(a)), f_from_i8 uninterpreted (num_traits FromPrimitive on a float never fails)                               -- external_body, below;
 //  axiom_usize_add_assign_ref: `usize += &usize` is `usize += *rhs` with the overflow panic (core's forward_ref_op_assign!) -- external_body, below
 //    (Verus has no spec for AddAssign<&usize>; used for `acc += Lnz` in the cumsum loop, whose overflow check is thereby kept as an obligation).
 // Verifier settings that matter: `#[verifier::loop_isolation(false)]` on the column loop of _factor_inner ONLY (inserted by //@before_loop 2):
@@ -303,7 +310,60 @@ pub proof fn axiom_usize_add_assign_ref()
 {}
 // ASSUMED (num_traits): FromPrimitive::from_i8 on a float type never fails
 impl F {
-    #[verifier::external_body] pub fn from_i8(a: i8) -> (r: Option<F>) ensures r is Some { unimplemented!() }
+    #[verifier::external_body] pub fn from_i8(a: i8) -> (r: Option<F>) ensures r == Some(f_from_i8(a)) { unimplemented!() }
+}
+pub uninterp spec fn f_from_i8(a: i8) -> F;
+
+// ---- the pivots of a numeric factorisation (opaque floats: pure data flow, no arithmetic law is used)
+// the signed pivot p falls below the regularisation threshold
+pub open spec fn perturbed(p: F, s: i8, enable: bool, eps: F) -> bool { enable && f_lt(f_mul(p, f_from_i8(s)), eps) }
+// the regularisation rule: a perturbed pivot is replaced by delta * sign, every other pivot is kept
+pub open spec fn reg_val(p: F, s: i8, enable: bool, eps: F, delta: F) -> F { if perturbed(p, s, enable, eps) { f_mul(delta, f_from_i8(s)) } else { p } }
+// number of positive pivots among the first k
+pub open spec fn pos_cnt(d: Seq<F>, k: int) -> int
+    decreases k
+{
+    if k <= 0 { 0 } else { pos_cnt(d, k - 1) + (if f_lt(f_zero(), d[k - 1]) { 1int } else { 0int }) }
+}
+// number of perturbed pivots among the first k
+pub open spec fn reg_cnt(pre: Seq<F>, ds: Seq<i8>, enable: bool, eps: F, k: int) -> int
+    decreases k
+{
+    if k <= 0 { 0 } else { reg_cnt(pre, ds, enable, eps, k - 1) + (if perturbed(pre[k - 1], ds[k - 1], enable, eps) { 1int } else { 0int }) }
+}
+// the first k pivots passed the zero test, Dinv holds their reciprocals, count = number of positive ones
+pub open spec fn pivots_ok(k: int, d: Seq<F>, dinv: Seq<F>, count: int) -> bool {
+    &&& forall|j: int| 0 <= j < k ==> #[trigger] dinv[j] == f_recip(d[j])
+    &&& forall|j: int| 0 <= j < k ==> !f_eq(#[trigger] d[j], f_zero())
+    &&& count == pos_cnt(d, k)
+}
+// pre = the pivots as computed, before the regularisation step: D is pre with exactly the perturbed ones replaced, regcount counts them
+pub open spec fn reg_ok(k: int, pre: Seq<F>, d: Seq<F>, ds: Seq<i8>, enable: bool, eps: F, delta: F, regcount: int) -> bool {
+    &&& forall|j: int| 0 <= j < k ==> #[trigger] d[j] == reg_val(pre[j], ds[j], enable, eps, delta)
+    &&& regcount == reg_cnt(pre, ds, enable, eps, k)
+}
+pub proof fn lemma_pos_cnt_frame(d1: Seq<F>, d2: Seq<F>, k: int)
+    requires forall|j: int| 0 <= j < k ==> d1[j] == d2[j],
+    ensures pos_cnt(d1, k) == pos_cnt(d2, k),
+    decreases k,
+{ if k > 0 { lemma_pos_cnt_frame(d1, d2, k - 1); } }
+pub proof fn lemma_reg_cnt_frame(p1: Seq<F>, p2: Seq<F>, ds: Seq<i8>, enable: bool, eps: F, k: int)
+    requires forall|j: int| 0 <= j < k ==> p1[j] == p2[j],
+    ensures reg_cnt(p1, ds, enable, eps, k) == reg_cnt(p2, ds, enable, eps, k),
+    decreases k,
+{ if k > 0 { lemma_reg_cnt_frame(p1, p2, ds, enable, eps, k - 1); } }
+// column k done: the facts about pivot k extend the record of the first k pivots (which column k did not touch)
+pub proof fn lemma_numeric_step(k: int, pre0: Seq<F>, pre1: Seq<F>, d0: Seq<F>, d1: Seq<F>, dinv0: Seq<F>, dinv1: Seq<F>, ds: Seq<i8>,
+                                enable: bool, eps: F, delta: F, c0: int, c1: int, r0: int, r1: int)
+    requires k >= 0, pivots_ok(k, d0, dinv0, c0), reg_ok(k, pre0, d0, ds, enable, eps, delta, r0),
+        forall|j: int| 0 <= j < k ==> pre1[j] == pre0[j] && d1[j] == d0[j] && dinv1[j] == dinv0[j],
+        d1[k] == reg_val(pre1[k], ds[k], enable, eps, delta), dinv1[k] == f_recip(d1[k]), !f_eq(d1[k], f_zero()),
+        c1 == c0 + (if f_lt(f_zero(), d1[k]) { 1int } else { 0int }),
+        r1 == r0 + (if perturbed(pre1[k], ds[k], enable, eps) { 1int } else { 0int }),
+    ensures pivots_ok(k + 1, d1, dinv1, c1), reg_ok(k + 1, pre1, d1, ds, enable, eps, delta, r1),
+{
+    lemma_pos_cnt_frame(d0, d1, k);
+    lemma_reg_cnt_frame(pre0, pre1, ds, enable, eps, k);
 }
 
 pub open spec fn psum(l: Seq<usize>, c: int) -> int
@@ -527,14 +587,32 @@ pub open spec fn filled_ok(n: int, lp: Seq<usize>, nc: Seq<usize>, li: Seq<usize
         forall|j: int| 0 <= j < old(Li)@.len() ==> #[trigger] final(Li)@[j] < n || final(Li)@[j] == old(Li)@[j],
         // so L is fit for the triangular solves if the row indices were in range before (spalloc zeros, or an earlier factorisation)
         n > 0 ==> l_wf_if_rows_ok(n as int, old(Li)@, final(Lp)@, final(Li)@, final(Lx)@),
-        // a logical factorisation leaves the numeric arrays Lx, Dinv alone
-        logical_factor ==> final(Lx)@ == old(Lx)@ && final(Dinv)@ == old(Dinv)@,
+        // a logical factorisation leaves the numeric arrays Lx, Dinv alone, counts no pivot and perturbs none
+        logical_factor ==> final(Lx)@ == old(Lx)@ && final(Dinv)@ == old(Dinv)@ && r == Ok::<usize, QDLDLError>(0) && *final(regularize_count) == 0,
+        // C12, a completed NUMERIC factorisation: every pivot passed the zero test and Dinv holds its reciprocal; the returned count is the
+        // number of positive pivots; and there are pivots `pre` (as computed, before the regularisation step; pre[0] is the stored A[0,0] or zero)
+        // such that D is pre with exactly the pivots whose signed value is below regularize_eps replaced by regularize_delta * sign, and
+        // regularize_count is their number (regularisation off: D == pre, count 0)
+        !logical_factor ==> (match r {
+            Ok(c) => pivots_ok(n as int, final(D)@, final(Dinv)@, c as int)
+                && exists|pre: Seq<F>| pre.len() == n && (n > 0 ==> pre[0] == (if Ap@[1] > 0 { Ax@[0] } else { f_zero() }))
+                    && #[trigger] reg_ok(n as int, pre, final(D)@, Dsigns@, regularize_enable, regularize_eps, regularize_delta, *final(regularize_count) as int),
+            Err(_) => true }),
         n == 0 ==> final(Lp)@ == old(Lp)@ && final(Li)@ == old(Li)@ && final(Lx)@ == old(Lx)@ && final(D)@ == old(D)@ && final(Dinv)@ == old(Dinv)@
             && final(bwork)@ == old(bwork)@ && final(iwork)@ == old(iwork)@ && final(fwork)@ == old(fwork)@,
 //@pre
     let ghost lnz = Lnz@;
     let ghost gn = n as int;
-    proof { axiom_usize_add_assign_ref(); assert(Li@.len() == Li.len()); if n > 0 { lemma_triu_col(n, Ap@, Ai@, 0); } }
+    let ghost mut pre: Seq<F> = Seq::new(n as nat, |j: int| f_zero());
+    proof {
+        axiom_usize_add_assign_ref(); assert(Li@.len() == Li.len()); if n > 0 { lemma_triu_col(n, Ap@, Ai@, 0); }
+        // n == 0: the empty record
+        assert(reg_ok(0, pre, D@, Dsigns@, regularize_enable, regularize_eps, regularize_delta, 0));
+    }
+//@before "if regularize_enable {" #1
+        proof { pre = pre.update(0, D@[0]); }
+//@before "if regularize_enable {" #2
+            proof { pre = pre.update(gk, D@[gk]); lemma_post_lwf(gn, Lp@, lnz, Li@, Lx@, old(Li)@); }
 //@loop 1
         invariant
             Lp@.len() == n + 1, lnz == Lnz@, lnz.len() == n, r14_lo1_0 == 1, r14_n1 == n, psum(lnz, gn) <= usize::MAX, gn == n,
@@ -543,24 +621,28 @@ pub open spec fn filled_ok(n: int, lp: Seq<usize>, nc: Seq<usize>, li: Seq<usize
 //@body_start 1
         proof { axiom_usize_add_assign_ref(); lemma_psum_mono(lnz, r14_i1 + 1, gn); }
 //@before "y_markers.fill(QDLDL_UNUSED);"
-    proof { lemma_lp_ok(gn, Lp@, lnz, Li@.len() as int); }
+    proof { lemma_lp_ok(gn, Lp@, lnz, Li@.len() as int); lemma_post_lwf(gn, Lp@, lnz, Li@, Lx@, old(Li)@); }
 //@before_loop 2
     proof {
         assert forall|c: int| 0 <= c < n implies #[trigger] next_colspace@[c] - Lp@[c] == cnt(Ap@, Ai@, etree@, c, 1) by { lemma_cnt1(Ap@, Ai@, etree@, c); }
         lemma_post_lwf(gn, Lp@, lnz, Li@, Lx@, old(Li)@);
         if n == 1 && lnz_exact(gn, Ap@, Ai@, etree@, lnz, gn) { lemma_l_complete(gn, Ap@, Ai@, etree@, lnz, Lp@, next_colspace@, Li@, Lx@); }
+        if !logical_factor {
+            lemma_numeric_step(0, pre, pre, D@, D@, Dinv@, Dinv@, Dsigns@, regularize_enable, regularize_eps, regularize_delta,
+                0, positiveValuesInD as int, 0, *regularize_count as int);
+        }
     }
     // loop_isolation(false) on the column loop only: the `return Err(..)` inside it must still know how the pieces y_markers / y_idx /
     // elim_buffer / next_colspace / y_vals (moved and split_at_mut borrows made before the loop) make up the final bwork / iwork / fwork
     #[verifier::loop_isolation(false)]
-//@before "return Err(QDLDLError::ZeroPivot);" #1
-            proof { lemma_post_lwf(gn, Lp@, lnz, Li@, Lx@, old(Li)@); }
-//@before "return Err(QDLDLError::ZeroPivot);" #2
-                proof { lemma_post_lwf(gn, Lp@, lnz, Li@, Lx@, old(Li)@); }
 //@body_end 2
         proof {
             lemma_post_lwf(gn, Lp@, lnz, Li@, Lx@, old(Li)@);
             if k + 1 == n && lnz_exact(gn, Ap@, Ai@, etree@, lnz, gn) { lemma_l_complete(gn, Ap@, Ai@, etree@, lnz, Lp@, next_colspace@, Li@, Lx@); }
+            if !logical_factor {
+                lemma_numeric_step(gk, pre0, pre, D0, D@, Dinv0, Dinv@, Dsigns@, regularize_enable, regularize_eps, regularize_delta,
+                    cnt0, positiveValuesInD as int, rc0, *regularize_count as int);
+            }
         }
 //@iter 2
 it2
@@ -580,9 +662,18 @@ it2
                 && forall|c: int| 0 <= c < n ==> #[trigger] next_colspace@[c] == Lp@[c + 1],
             forall|j: int| 0 <= j < Li@.len() ==> #[trigger] Li@[j] < n || Li@[j] == old(Li)@[j],
             *regularize_count <= it2.index@ + 1, positiveValuesInD <= it2.index@ + 1,
-            logical_factor ==> Lx@ == old(Lx)@ && Dinv@ == old(Dinv)@,
+            logical_factor ==> Lx@ == old(Lx)@ && Dinv@ == old(Dinv)@ && positiveValuesInD == 0 && *regularize_count == 0,
+            pre.len() == n,
+            !logical_factor ==> pivots_ok(it2.index@ + 1, D@, Dinv@, positiveValuesInD as int)
+                && reg_ok(it2.index@ + 1, pre, D@, Dsigns@, regularize_enable, regularize_eps, regularize_delta, *regularize_count as int)
+                && pre[0] == (if Ap@[1] > 0 { Ax@[0] } else { f_zero() }),
 //@body_start 2
         let ghost gk = k as int;
+        let ghost pre0 = pre;
+        let ghost D0 = D@;
+        let ghost Dinv0 = Dinv@;
+        let ghost cnt0 = positiveValuesInD as int;
+        let ghost rc0 = *regularize_count as int;
         let ghost mut wh: Seq<int> = Seq::new(n as nat, |c: int| 0int);
         let ghost mut pos: Seq<int> = Seq::new(n as nat, |c: int| 0int);
         proof { lemma_triu_col(n, Ap@, Ai@, gk); }
@@ -590,6 +681,7 @@ it2
             invariant
                 n > 0, gn == n, gk == k, 1 <= k < n, factor_pre(n, Ap@, Ai@, etree@, Lnz@), Ax@.len() == Ai@.len(),
                 D@.len() == n, y_vals@.len() == n, etree@.len() == n,
+                forall|j: int| 0 <= j < k ==> #[trigger] D@[j] == D0[j],
                 Ap@[gk] <= r11_it1 <= r11_end1, r11_end1 == Ap@[gk + 1], r11_end1 <= Ai@.len(),
                 forall|p: int| Ap@[gk] <= p < Ap@[gk + 1] ==> #[trigger] Ai@[p] <= k,
                 marks_ok(gn, y_markers@, y_idx@, nnz_y as int, elim_buffer@, 0, wh, pos),
@@ -665,6 +757,7 @@ it6
                 n > 0, gn == n, gk == k, 1 <= k < n, lnz == Lnz@, factor_pre(n, Ap@, Ai@, etree@, Lnz@),
                 Li@.len() == old(Li)@.len(), Lx@.len() == Li@.len(), D@.len() == n, Dinv@.len() == n, y_markers@.len() == n, y_idx@.len() == n,
                 next_colspace@.len() == n, y_vals@.len() == n,
+                forall|j: int| 0 <= j < k ==> #[trigger] D@[j] == D0[j],
                 it6.seq().len() == nnz_y, forall|q: int| 0 <= q < it6.seq().len() ==> #[trigger] it6.seq()[q] == nnz_y - 1 - q,
                 lp_ok(gn, Lp@, lnz, Li@.len() as int),
                 cols_ok(gn, Lp@, next_colspace@),
@@ -759,6 +852,16 @@ pub open spec fn ws_static_same(w0: QDLDLWorkspace<F>, w1: QDLDLWorkspace<F>) ->
         // C12: a factorisation that reports success has filled every column of L completely with rows strictly below the diagonal and
         // inside the matrix: l_wf and l_strict (folded in l_complete) are exactly what QDLDLFactorisation::solve / _solve require
         r is Ok && old(workspace).triuA.n > 0 ==> l_complete(old(workspace).triuA.n as int, final(L).colptr@, final(L).rowval@, final(L).nzval@),
+        // C12, numeric mode and Ok: no zero pivot, Dinv = 1/D entry by entry, the recorded positive inertia is the number of positive pivots,
+        // pivots are perturbed exactly when their signed value is below the threshold and regularize_count counts them (see _factor_inner)
+        !logical && r is Ok ==> pivots_ok(old(workspace).triuA.n as int, final(D)@, final(Dinv)@, final(workspace).positive_inertia as int)
+            && exists|pre: Seq<F>| pre.len() == old(workspace).triuA.n
+                && #[trigger] reg_ok(old(workspace).triuA.n as int, pre, final(D)@, old(workspace).Dsigns@, old(workspace).regularize_enable,
+                    old(workspace).regularize_eps, old(workspace).regularize_delta, final(workspace).regularize_count as int),
+        // logical mode: always Ok, every numeric entry of L and Dinv is the placeholder 1, nothing is counted
+        logical ==> r is Ok && final(workspace).positive_inertia == 0 && final(workspace).regularize_count == 0
+            && (forall|k: int| 0 <= k < final(Dinv)@.len() ==> #[trigger] final(Dinv)@[k] == f_one())
+            && (forall|j: int| 0 <= j < final(L).nzval@.len() ==> #[trigger] final(L).nzval@[j] == f_one()),
 //@end
 } // verus!
 fn main() {}
